@@ -61,10 +61,32 @@ pub fn all() -> Vec<Prop> {
             shards_thorough: 16,
         },
         Prop {
+            id: "C03",
+            run: props::skip::run_c03,
+            replayers: props::skip::replayers_c03,
+            rule: "proptest over every mutating entry point, each called on a view into a larger sentinel-filled parent (axis permutation, per-axis step 1..3, reversal, 0..2 guard elements in front/behind; 1-D routines on strided/offset/reversed views): partition_mut, get_from_sorted_mut, get_many_from_sorted_mut, quantile_mut, quantiles_mut, quantile_axis_mut, quantiles_axis_mut (11 Ord element types, 1-4-D, every axis), quantile_axis_skipnan_mut and map_axis_skipnan_mut with a recording closure (f32, f64, Option<i32>, Option<u8>, Option<i64>, Option<N64>, 1-3-D, every axis), remove_nan_mut directly and over lanes_mut of n-D arrays (all 14 impls), under scripted pivots. Oracle: every parent element outside the view is bit-identical to the sentinel afterwards, and every lane along the routine's axis holds the same multiset of bit patterns (missing values and NaN payloads included). Distinct by hash of the whole case. Non-trivial: the view is a strict subset of its parent and the data are not constant.",
+            assumptions: COMMON_ASSUMPTIONS,
+            profiles_quick: BOTH,
+            profiles_thorough: BOTH,
+            shards_quick: 8,
+            shards_thorough: 16,
+        },
+        Prop {
             id: "C04",
             run: props::nan::run_c04,
             replayers: props::nan::replayers,
-            rule: "Enumeration: all 2^L missing/non-missing masks for L <= 12 (quick) / 16 (thorough) x the 14 MaybeNan impls (f32, f64, Option of u8..u128, i8..i128, N32, N64) x strides {-3,-2,-1,1,2,3} x offsets {0,1,2} inside a sentinel buffer, values distinct (distinct by construction). Random: proptest masks up to 60/200 elements incl. first-only/last-only/alternating/dense/sparse, strides up to +-7 (distinct by hash). Oracle order: metadata of the returned view (pointer, length, stride) must designate distinct element addresses of the input view BEFORE anything is dereferenced; then multiset, no missing element, count, determinism, idempotence, typed references. Non-trivial: at least one missing and one non-missing element and (|stride| != 1 or offset != 0).",
+            rule: "Enumeration: all 2^L missing/non-missing masks for L <= 12 (quick) / 16 (thorough) x the 14 MaybeNan impls (f32, f64, Option of u8..u128, i8..i128, N32, N64) x strides {-3,-2,-1,1,2,3} x offsets {0,1,2} inside a sentinel buffer, values distinct (distinct by construction). Random: proptest masks up to 60/200 elements incl. first-only/last-only/alternating/dense/sparse, strides up to +-7, and lanes of 1-3-D arrays in generated layouts taken along every axis with lanes_mut (distinct by hash). Oracle order: metadata of the returned view (pointer, length, stride) must designate distinct element addresses of the input view BEFORE anything is dereferenced; then multiset, no missing element, count, determinism, idempotence, typed references. Non-trivial: at least one missing and one non-missing element and (|stride| != 1 or offset != 0).",
+            assumptions: COMMON_ASSUMPTIONS,
+            profiles_quick: BOTH,
+            profiles_thorough: BOTH,
+            shards_quick: 8,
+            shards_thorough: 16,
+        },
+        Prop {
+            id: "C14",
+            run: props::skip::run_c14,
+            replayers: props::skip::replayers_c14,
+            rule: "proptest: element type (f32, f64, Option<i32>, Option<u8>, Option<i64>, Option<N64>) x 1-3-D shape x axis x layout (view into a sentinel parent) x values (tiny alphabet / small / wide) x missing mask (random density, none, all, first-only, last-only, alternating, dense) x q recipe x strategy x pivot script. One case exercises min/max_skipnan, argmin/argmax_skipnan, fold_skipnan (with a non-trivial init), visit_skipnan, indexed_fold_skipnan, fold_axis_skipnan, map_axis_skipnan_mut (recording closure) and quantile_axis_skipnan_mut; each is compared with the plain operation on the harness-filtered data (quantiles through the C01 oracle on the filtered, sorted lane; all-missing lane => missing value; nothing left => missing value / EmptyInput). Distinct by hash. Non-trivial: some but not all values missing, lane length >= 3, and the axis is not the contiguous one or the layout is non-standard.",
             assumptions: COMMON_ASSUMPTIONS,
             profiles_quick: BOTH,
             profiles_thorough: BOTH,
